@@ -106,11 +106,8 @@ impl CaoLangTable {
 
     pub fn pop(&mut self) -> Result<Value, ExecutionErrorPayload> {
         match self.keys.pop() {
-            Some(key) => {
-                let res = self.get(&key).copied().unwrap_or(Value::Nil);
-                self.remove(key)?;
-                Ok(res)
-            }
+            // the key is already gone from `keys`: take the entry out of the hash part as well
+            Some(key) => Ok(self.map.remove(&key).unwrap_or(Value::Nil)),
             None => Ok(Value::Nil),
         }
     }
